@@ -1837,7 +1837,7 @@ class SemiEllipse(Term):
             * np.where(np.isnan(x), np.nan, 1.0)
             * np.where(
                 (x >= s) & (x <= e),
-                np.sqrt(r**2 - np.square(x - c)) / r,
+                np.sqrt(np.maximum(r**2 - np.square(x - c), 0.0)) / r,
                 0,
             )
         )
